@@ -284,4 +284,55 @@ Proof.
   - exact (proj1 (proj2 (proj2 (all_P f))) _ _ _ _ _ Hne H).
 Qed.
 
+(* the loops as well: whatever the header clauses and the passes assign lives in the loop's own frame,
+   which is dropped at @end - also when the @for has no init clause, and for the @else branch *)
+Theorem for_leaves_scope_unchanged f en ln init c post body alt v en' :
+  en <> [] -> eval_stmt cx f en (SFor ln init c post body alt) = Ok (v, en') -> en' = en.
+Proof.
+  intros Hne H. destruct f as [|f]; [discriminate|]. cbn [eval_stmt] in H.
+  destruct (all_P f) as (Ps & Pb & _ & _ & Pf & _).
+  assert (K0 : forall r0, (match init with SNull => Ok (VNil, [] :: en) | _ => eval_stmt cx f ([] :: en) init end) = Ok r0 ->
+                          keeps ([] :: en) (snd r0)).
+  { intros [v0 e0] E. destruct init; try (exact (Ps _ _ _ _ (cons_nonempty _ _) E)).
+    inversion E; subst. apply keeps_refl. apply cons_nonempty. }
+  destruct (match init with SNull => Ok (VNil, [] :: en) | _ => eval_stmt cx f ([] :: en) init end) as [r0| | | |] eqn:E0; try discriminate.
+  specialize (K0 r0 eq_refl). cbn beta iota zeta in H.
+  destruct (match c with ENull => Ok true | _ => let! cv := eval_expr cx f (snd r0) c in Ok (truthy cv) end) as [enter| | | |]; try discriminate.
+  cbn beta iota in H.
+  assert (Kloop : forall r, for_loop cx f ln init c post body (snd r0) [] = Ok r -> tl (snd r) = en).
+  { intros [o e1] E. pose proof (Pf _ _ _ _ _ _ _ _ _ (proj2 K0) E) as K.
+    exact (nested_back en e1 (keeps_trans _ _ _ K0 K)). }
+  assert (Kalt : forall a r, eval_block cx f (snd r0) a [] = Ok r -> tl (snd r) = en).
+  { intros a [o e1] E. pose proof (Pb _ _ _ _ _ (proj2 K0) E) as K.
+    exact (nested_back en e1 (keeps_trans _ _ _ K0 K)). }
+  destruct enter; [|destruct alt as [a|]].
+  - destruct (for_loop cx f ln init c post body (snd r0) []) as [r| | | |] eqn:E; try discriminate.
+    inversion H; subst. first [exact (Kloop r E) | exact (Kloop r eq_refl)].
+  - destruct (eval_block cx f (snd r0) a []) as [r| | | |] eqn:E; try discriminate.
+    inversion H; subst. first [exact (Kalt a r E) | exact (Kalt a r eq_refl)].
+  - destruct (for_loop cx f ln init c post body (snd r0) []) as [r| | | |] eqn:E; try discriminate.
+    inversion H; subst. first [exact (Kloop r E) | exact (Kloop r eq_refl)].
+Qed.
+
+Theorem each_leaves_scope_unchanged f en ln var arr body alt v en' :
+  en <> [] -> eval_stmt cx f en (SEach ln var arr body alt) = Ok (v, en') -> en' = en.
+Proof.
+  intros Hne H. destruct f as [|f]; [discriminate|]. cbn [eval_stmt] in H.
+  destruct (all_P f) as (_ & Pb & _ & _ & _ & Pe).
+  destruct (eval_expr cx f ([] :: en) arr) as [av| | | |]; try discriminate.
+  cbn beta iota zeta in H. destruct av; try discriminate.
+  assert (Kloop : forall elems r, each_loop cx f ln var body (List.length elems) 0 elems ([] :: en) [] = Ok r -> tl (snd r) = en).
+  { intros elems [o e1] E. exact (nested_back en e1 (Pe _ _ _ _ _ _ _ _ _ _ (cons_nonempty _ _) E)). }
+  assert (Kalt : forall a r, eval_block cx f ([] :: en) a [] = Ok r -> tl (snd r) = en).
+  { intros a [o e1] E. exact (nested_back en e1 (Pb _ _ _ _ _ (cons_nonempty _ _) E)). }
+  match type of H with context [match ?l with [] => _ | _ :: _ => _ end] => destruct l as [|x xs] eqn:El end.
+  - destruct alt as [a|].
+    + destruct (eval_block cx f ([] :: en) a []) as [r| | | |] eqn:E; try discriminate.
+      inversion H; subst. first [exact (Kalt a r E) | exact (Kalt a r eq_refl)].
+    + destruct (each_loop cx f ln var body (List.length (@nil value)) 0 [] ([] :: en) []) as [r| | | |] eqn:E; try discriminate.
+      inversion H; subst. first [exact (Kloop [] r E) | exact (Kloop [] r eq_refl)].
+  - destruct (each_loop cx f ln var body (List.length (x :: xs)) 0 (x :: xs) ([] :: en) []) as [r| | | |] eqn:E; try discriminate.
+    inversion H; subst. first [exact (Kloop (x :: xs) r E) | exact (Kloop (x :: xs) r eq_refl)].
+Qed.
+
 End WithCtx.
